@@ -22,7 +22,8 @@ func init() {
 			"R4 the lock-order graph (acquire B while holding A) is acyclic. " +
 			"R6 Buffer.Commit reports success only after the commit function returned nil in this call; R7 the server answers a manifest GET by tag with the single backend call GetTag. " +
 			"R8 (shared with C04.R6) a refused Buffer.Write assigns no field of the upload, so concurrent stale writers cannot disarm the offset check for one another. " +
-			"R9 the bytes whose digest gates `committed = true` are read in the same critical section (no unlock between the read of buf that is hashed and the store).",
+			"R9 the bytes whose digest gates `committed = true` are read in the same critical section (no unlock between the read of buf that is hashed and the store). " +
+			"R10 (shared with C01.R5) the bytes stored for a digest never alias a caller-owned slice: no goroutine outside the registry can write to stored content.",
 		NotDecided: "linearizability of histories itself, and races that a lockset abstraction cannot see (none known: ocimem uses no atomics or channels); behaviour through ociserver relies on the same registry methods.",
 		Technique:  "static analysis: lockset dataflow + greatest-fixpoint held-at-entry over the VTA call graph, critical-section counting, lock-order graph",
 	})
@@ -243,6 +244,9 @@ func runC08(c *core.Ctx) {
 	c08Seal(c, la)
 	c08LockOrder(c, la)
 	bufferCommitAfterStore(c, "C08.R6")
+	// a committed blob's stored content always matches its digest: the stored bytes are the registry's own,
+	// not a slice the pushing goroutine can still write to (shared with C01.R5)
+	relabel(c, "C08.R10", func() { c01Immutability(c) })
 	serverTagReadIsOneCall(c, "C08.R7")
 	// a refused Write changes nothing (shared with C04.R6): two stale writers racing on one session cannot disarm the offset check for each other
 	bufferFailedWriteLeavesState(c, "C08.R8")
